@@ -100,6 +100,8 @@ type C15SchedCase struct {
 	// BaseIssuer: every request's context descends from one application-wide context that already carries an issuer (a
 	// server's BaseContext set up with ContextWithIssuer); each request still gets its own from the interceptor
 	BaseIssuer bool  `json:"base_context_issuer,omitempty"`
+	// Forwarded: see C15Case.Forwarded
+	Forwarded bool `json:"forwarded,omitempty"`
 	Schedule   []int `json:"schedule"`
 	// Faults[i]: storage operation -> fault kind, for every call session i makes
 	Faults []map[string]string `json:"faults,omitempty"`
@@ -177,6 +179,9 @@ var c15KeepWhenImpaired = map[string]bool{"C15/panic": true, "C15/foreign-sessio
 
 func c15SchedRun(c C15SchedCase) ([]*ev.Violation, *c15Collect, []string) {
 	spec := c15Spec(c.N)
+	if c.Forwarded {
+		spec.IdP.IssuerMode = "forwarded"
+	}
 	c15Seed(&spec, c.N, c.SharedIDs)
 	w := mustBuild(spec)
 	cc := &c15Collect{ids: map[string]string{}, byOp: map[string]int{}}
@@ -196,7 +201,7 @@ func c15SchedRun(c C15SchedCase) ([]*ev.Violation, *c15Collect, []string) {
 		i := i
 		ctx, cancel := context.WithCancel(context.WithValue(base, schedKey{}, i))
 		s.cancels[i] = cancel
-		per[i] = &c15Collect{ids: map[string]string{}, byOp: map[string]int{}, sameHost: c.SameHost || c.SameSP, sameSP: c.SameSP, sharedReqIDs: c.SharedIDs}
+		per[i] = &c15Collect{ids: map[string]string{}, byOp: map[string]int{}, sameHost: c.SameHost || c.SameSP, sameSP: c.SameSP, sharedReqIDs: c.SharedIDs, forwarded: c.Forwarded}
 		wg.Add(1)
 		go func() {
 			defer wg.Done()
@@ -423,6 +428,7 @@ func genSchedFocused(t *rapid.T, ops []string, sharedIDs, sameSP bool) C15SchedC
 		}
 	}
 	c.BaseIssuer = rapid.Bool().Draw(t, "baseissuer")
+	c.Forwarded = rapid.IntRange(0, 2).Draw(t, "forwarded") == 0
 	c.Schedule = rapid.SliceOfN(rapid.IntRange(0, 7), 0, 40).Draw(t, "schedule")
 	return c
 }
